@@ -1,8 +1,8 @@
 from . import COMMON_TB, NOTE
 
 PROP = {
-    "modules": ["Proofs.C15"],
-    "streams": [{"name": "arrf"}],
+    "modules": ["Proofs.C15", "Proofs.C15Heap"],
+    "streams": [{"name": "arrf"}, {"name": "alias"}],
     "rule": "arrf: every array of length 0..4 over {0, 1, 2, -1, 1.5, \"a\", \"b\", \"B\", nil} (7 381 arrays; quick gives the 6 561 "
             "arrays of length 4 in the []any representation only) x 20 filter calls (compact reverse first last uniq size, concat with "
             "five arguments, join with three separators, map: k/size, sort, sort: k, sort_natural, sort_natural: k) x up to seven Go "
@@ -16,7 +16,17 @@ PROP = {
             "widths, floats, strings, nil, booleans, maps, arrays, ranges, integers beyond 2^53 next to the floats they round to, "
             "maps whose key k holds any of these, few-valued arrays full of ties, repeated elements) x sort, sort: k, sort_natural, "
             "sort_natural: k, every fifth in all representations; a sample of cases again as whole templates through the engine and "
-            "the model's renderer. A case is non-trivial when the real code returns a value; distinct by case line",
+            "the model's renderer. A case is non-trivial when the real code returns a value; distinct by case line. "
+            "alias: `x | f1: a0 | f2: a1 ...` with x a real []any (or typed slice) realised as backing[off:off+len] of a backing array "
+            "of off+len+spare elements whose other elements hold a sentinel (6 layouts: full capacity, 1/2/7 spare, offset 1 and 2), "
+            "every other slice with 2 spare elements: every array of length 0..2 (thorough: 0..3) over the nine-element universe x 6 "
+            "layouts x 23 calls (the array filters, size, and default, which returns its input uncopied) and its other Go "
+            "representations (typed slice, fixed array, range, MapSlice, map) x 23 calls; 23 fixed receivers (nested arrays, arrays of "
+            "maps, drops, typed slices, nil, ranges, non-arrays) x 4 layouts x (23 calls + 70 two-step pipelines whose first step hands "
+            "an element or its own input on: first/last/default/compact/concat/map then sort/reverse/compact/uniq/concat/...); random "
+            "receivers to length 8 x random chains of 1..4 filters (quick 6 000, thorough 150 000). Result line: the value, whether it "
+            "lies in the receiver's backing array (pointer range), and the indices of the caller's arrays (up to cap) whose deep snapshot "
+            "changed; non-trivial = the real code returns a value",
     "trusted_base": COMMON_TB + [
         "Go's sort.Sort (go1.23 sort/zsortinterface.go): up to 12 elements it is insertionSort, transcribed loop by loop in "
         "Liquid/InsertionSort.lean and compared element by element on every such case; beyond 12 elements it is taken to return a "
@@ -38,9 +48,14 @@ PROP = {
         "is checked, by the oracle",
         "outside the model (counted as unmodelled): pointer identity in uniq, fmt of pointers and time.Time, case mapping outside "
         "the table of Liquid/Unicode.lean in sort_natural, ranges of more than a million items",
-        "that a filter does not write to the caller's array cannot be expressed in a pure model (filters_pure_partial): it is "
-        "checked on the real code by comparing the caller's Go value with an untouched copy after every case and by rendering the "
-        "input again after the filter",
+        "Liquid/Heap.lean describes Go's slice operations (index, element assignment, reslice, make, append with its in-place case, "
+        "copy) and, line by line, values.Convert(v, []any) as convertCallArguments uses it and the bodies of compact concat join map "
+        "reverse sort sort_natural first last uniq size default (filters/standard_filters.go, filters/sort_filters.go): checked by the "
+        "alias stream on every run (result, alias flag, changed locations). In that model the ELEMENTS of an array are immutable "
+        "values: a nested slice or map inside an element is a value (no array filter writes through an element; the deep snapshots of "
+        "the alias, arrf and immut oracles cover nested memory on the real code); the capacity Go gives an array that append "
+        "allocates (size classes) is not modelled and no statement depends on it; sort.Sort / values.Sort are taken to touch the "
+        "slice they are given only through Len/Less/Swap(i, j) with i, j < Len (modelled as a write of every index of that slice)",
     ],
 }
 
@@ -63,15 +78,38 @@ TEXT = {
             "non-array receiver a TypeError; sort through ApplyFilter/Call is sortF on every receiver of up to 12 elements. The model "
             "is compared with the real code on every case (sort results element by element up to 12 elements); an independent oracle "
             "(reference implementations over value trees) checks permutation, order, nil-keys-first, every other filter's exact "
-            "result, agreement of all representations, and that neither the Go value passed in nor a second rendering of it changes.",
+            "result, agreement of all representations, and that neither the Go value passed in nor a second rendering of it changes. "
+            "NO WRITES INTO THE INPUT (Proofs/C15Heap.lean, on the slice-memory model Liquid/Heap.lean: a store of backing arrays, slice "
+            "headers arr/off/len/cap, Go's index / element assignment / reslice / make / append (which writes IN PLACE into spare "
+            "capacity) / copy, every run with the log of the locations written; heap_log_complete: a location not in the log holds "
+            "what it held): array_filters_do_not_write_inputs -- for each of compact concat join map reverse sort sort_natural first "
+            "last uniq size default, every receiver, arguments and store, `x | f: args` (values.Convert, which passes a []any without "
+            "drops through UNCOPIED, then the body) writes only into arrays the call allocated, so every backing array that existed "
+            "before, spare capacity included, is unchanged (the initial store is a prefix of the final one); "
+            "filter_bodies_do_not_write_inputs (each body on any slices), convert_does_not_write_inputs; pipeline_no_write (induction "
+            "over any chain of these filters, where a later filter may receive the caller's own slice from an earlier one). "
+            "heap_refines_pure / heap_pipeline_refines_pure: on well-formed slices the memory-level run answers exactly as the pure "
+            "model's evalFilter on the values the slices hold (same error / unmodelled), and its result reads, in the final store, as "
+            "the pure result -- all twelve filters, so the theorems above transfer; heap_bodies_refine_pure per body; "
+            "heap_sort_permutation. Aliasing facts of the code: convert_passes_generic_slice_through (a []any without drops reaches "
+            "the body as the caller's own slice: same array, offset, length, capacity), convert_allocates_otherwise (typed slices, "
+            "[]any holding a drop, arrays, ranges, MapSlice, maps); array_results_never_alias (the result of compact concat map reverse "
+            "sort sort_natural uniq is nil or lies in an array allocated by the call -- also concat with an empty argument, compact "
+            "without nils: none returns its input); default_returns_its_input_uncopied (the one standard filter that hands an array on: "
+            "the next filter of a pipeline then works on the caller's array); scalar_results_are_values (first/last return the element, "
+            "results are shallow). Tie: the `alias` stream runs the real filters on []any values with spare capacity holding a sentinel "
+            "and compares result, alias flag and the set of changed locations with the model.",
     "design_ref": "DESIGN.md 6 C15",
     "note": NOTE + "Defects found and repaired (fixes/*.patch): uniq panicked on nil elements and on arrays/structs holding slices; "
             "sort_natural panicked on nil, mixed, keyless elements and non-string keys and left non-string arrays unsorted; sort: key "
             "panicked on map[K]any with a defined string type K; fixed arrays, typed containers and maps holding nil were rejected "
             "with a TypeError; drops inside []any / MapSlice reached join, uniq, compact and sort_natural unresolved ({x} {y}); "
-            "size of a range was 0. Not a theorem: absence of writes to the caller's array (pure model) -- checked dynamically.",
+            "size of a range was 0. The no-write clause is a theorem about the slice-memory model (elements are values there: writes "
+            "through nested slices/maps are outside it and carried by the deep-snapshot oracles).",
     "technique": "Lean 4 proof (Go's insertionSort transcribed and proved a stable permutation for every comparator, equal to "
                  "List.mergeSort on strict weak orders; order properties proved per kind; induction over lists) + model/implementation "
                  "correspondence, exact up to 12 elements and with a canonical form for the unstable sort beyond + independent "
-                 "reference-implementation oracle and deep-copy mutation check on the implementation",
+                 "reference-implementation oracle and deep-copy mutation check on the implementation + Lean 4 proof on a slice-memory "
+                 "model (write log; induction over loops and pipelines; refinement to the pure model) tied by a stream that observes "
+                 "aliasing and changed locations",
 }
